@@ -335,9 +335,11 @@ fn main() {
     iceoryx2::prelude::set_log_level(iceoryx2::prelude::LogLevel::Fatal);
     // the process-local storages of the local variants are heap allocations of several 100 kB that
     // are created and freed in every execution: keep them in the heap instead of mmap / trim cycles
-    unsafe {
-        libc::mallopt(libc::M_MMAP_THRESHOLD, 1 << 30);
-        libc::mallopt(libc::M_TRIM_THRESHOLD, 1 << 30);
+    if std::env::var("H_LIFECYCLE_MALLOPT").is_ok() {
+        unsafe {
+            libc::mallopt(libc::M_MMAP_THRESHOLD, 1 << 30);
+            libc::mallopt(libc::M_TRIM_THRESHOLD, 1 << 30);
+        }
     }
     remove_stale_domains("h_lifecycle-", "hlc");
     start_watchdog();
